@@ -637,9 +637,13 @@ func (c *Collection) withNewCas(fn func(txn *sql.Tx, newCas CAS) (*event, error)
 			return err
 		}
 		return c.setLastCas(txn, newCas)
+	}, func() {
+		if e != nil {
+			c._postNewEvent(e)
+		}
 	})
 	if err == nil && e != nil {
-		c.postNewEvent(e)
+		c.bucket.expManager.scheduleExpirationAtOrBefore(e.exp)
 	}
 	return err
 }
